@@ -42,14 +42,42 @@ Example C20_nonvacuous :
   POk [Node [97%N] [[98%N]] (Some [Node [99%N] [] None false false 2]) false false 1].
 Proof. vm_compute. reflexivity. Qed.
 
-(* round trip on a concrete expressible tree (the general statement is checked on the
-   implementation and the model by the correspondence run; see DESIGN.md) *)
+(* Printing a tree in canonical syntax and reading it again yields the same tree (up to the line
+   numbers, which become those of the printed text: [relabs 1 t]).  For every list of trees whose
+   directive names are well formed, that are not declarations or import directives, whose
+   arguments the quoted syntax can carry and no later expansion touches, and whose blocks nest at
+   most 256 deep; for every set of importable files and every environment.  The two hypotheses
+   are facts about the Unicode tables behind unicode.IsSpace / IsLetter / IsDigit (checked against
+   Go's tables by the harness on every run): no letter or digit is a space, U+FEFF is neither. *)
+Require Maddy.Cfg.RoundTrip Maddy.Cfg.RoundTripParse Maddy.Cfg.RoundTripTop.
+Theorem C20_print_read_roundtrip :
+  forall is_space_u is_letter_u is_digit_u files env,
+    (forall c, (128 <= c)%N -> (is_letter_u c || is_digit_u c)%bool = true -> is_space_u c = false) ->
+    (is_letter_u 65279%N = false /\ is_digit_u 65279%N = false) ->
+    forall t,
+      forallb (RoundTripTop.rt_ok is_letter_u is_digit_u) t = true -> RoundTripParse.deps t <= 256 ->
+      read is_space_u is_letter_u is_digit_u files env (print_nodes t) = POk (RoundTripParse.relabs 1 t)
+      /\ list_eqb node_eqb t (RoundTripParse.relabs 1 t) = true.
+Proof. exact RoundTripTop.print_read_roundtrip. Qed.
+Print Assumptions C20_print_read_roundtrip.
+
+(* the trees the property names - accepted by the reader (C20_post_names_and_declarations) and
+   expressible in the quoted syntax - are among them *)
+Theorem C20_accepted_expressible_trees_roundtrip :
+  forall is_letter_u is_digit_u n,
+    goodb is_letter_u is_digit_u n = true -> expressible n = true ->
+    RoundTripTop.rt_ok is_letter_u is_digit_u n = true.
+Proof. exact RoundTripTop.good_expressible_rt_ok. Qed.
+Print Assumptions C20_accepted_expressible_trees_roundtrip.
+
+(* the premises of the round-trip theorem are satisfiable: a concrete tree *)
 Example C20_roundtrip_example :
   let t := [Node [97%N] [[98%N; 32%N; 34%N]; []] (Some [Node [99%N] [[123%N; 120%N]] None false false 0;
                                                           Node [100%N] [] (Some []) false false 0]) false false 0] in
   forallb expressible t = true /\
+  forallb (RoundTripTop.rt_ok (fun _ => false) (fun _ => false)) t = true /\ RoundTripParse.deps t <= 256 /\
   match read (fun _ => false) (fun _ => false) (fun _ => false) (fun _ => None) [] (print_nodes t) with
   | POk t' => list_eqb node_eqb t t' = true
   | _ => False
   end.
-Proof. vm_compute. auto. Qed.
+Proof. vm_compute. repeat split; auto; discriminate. Qed.
